@@ -195,7 +195,7 @@ func main() {
 			}
 		}
 		rng := hutil.NewRng(hutil.SeedFromEnv())
-		n := 100
+		n := 70
 		if tier == "thorough" {
 			n = 1500
 		}
